@@ -76,15 +76,15 @@ func (c16) Gen(r *rand.Rand, tier string, run int) *core.Case {
 			var op core.Op
 			switch x := r.IntN(10); {
 			case x < 3:
-				op = core.Op{Kind: "call", X: int64(r.IntN(objs + 1))}
+				op = core.Op{Kind: "call", X: int64(r.IntN(objs + 1 + 4*r.IntN(2)))}
 			case x < 4:
 				op = core.Op{Kind: "subscribe", X: int64(1 + r.IntN(objs))}
 			case x < 6:
-				op = core.Op{Kind: []string{"remove", "remove", "self"}[r.IntN(3)], X: int64(1 + r.IntN(objs))}
+				op = core.Op{Kind: []string{"remove", "remove", "self"}[r.IntN(3)], X: int64(1 + r.IntN(objs+4*r.IntN(2)))}
 			case x < 8:
-				op = core.Op{Kind: "terminate", X: int64(1 + r.IntN(objs))}
+				op = core.Op{Kind: "terminate", X: int64(1 + r.IntN(objs+4*r.IntN(2)))}
 			default:
-				op = core.Op{Kind: []string{"add", "add", "readd"}[r.IntN(3)], X: int64(1 + r.IntN(objs))}
+				op = core.Op{Kind: []string{"add", "add-family", "readd"}[r.IntN(3)], X: int64(1 + r.IntN(objs))}
 			}
 			op.Actor = a
 			op.Y = int64(r.IntN(2))
@@ -350,6 +350,17 @@ func (c16) Run(c *core.Case, env *core.Env) {
 				switch op.Kind {
 				case "add":
 					add(a, nil)
+				case "add-family":
+					// a parent whose termination hook removes its child from
+					// the same service
+					child := add(a, nil)
+					parent := add(a, nil)
+					if child != nil && parent != nil {
+						parent.impl.mu.Lock()
+						parent.impl.OnTerm = func() { removal(a, "remove", child, 0) }
+						parent.impl.mu.Unlock()
+						env.Probe("families")
+					}
 				case "readd":
 					prev := pick(op.X)
 					st.mu.Lock()
